@@ -50,6 +50,7 @@ type Engine struct {
 	repoDir   string
 	verbose   bool
 	knownFindings []*KnownFinding
+	staleLoops    []string
 	globalInvs    []*GlobalInv
 	globalInit    map[types.Object]globalInitExpr
 }
